@@ -486,7 +486,7 @@ class Engine(ABC, DataDimensionality):
                 storage.add_image(f"{key_prefix}target", visualize_target)
 
             self.logger.info("Done evaluation of %s at iteration %s.", str(curr_dataset_name), str(iter_idx))
-        self.model.train()
+        self.models_training_mode()
 
     def process_slices_for_visualization(self, visualize_slices, visualize_target):
         # Log slices.
